@@ -114,7 +114,7 @@ Proof. vm_compute. reflexivity. Qed.
 Example ex_quoted_result : res (quoted_string_loop_c [97; 34; 10; 98; 92]) = [97; 92; 34; 92; 110; 98; 92; 92].
 Proof. vm_compute. reflexivity. Qed.
 Example ex_graph_rec :
-  depth_of false (InGraph (fun g => [[g; 7]]) [] 0 (map N.of_nat (seq 0 300))) = 303%nat.
+  depth_of false (InGraph (fun g => [[g; 7]]) [] 0 (map N.of_nat (seq 0 300))) = 301%nat.
 Proof. vm_compute. reflexivity. Qed.
 Example ex_graph_loop :
   depth_of true (InGraph (fun g => [[g; 7]]) [] 0 (map N.of_nat (seq 0 300))) = 2%nat.
@@ -138,7 +138,7 @@ Example ex_mark_loop : depth_of true (InMark (mark_cells 300 300)) = 1%nat.
 Proof. vm_compute. reflexivity. Qed.
 Example ex_mark_bad : res (mark_loop_c (mark_cells 6 2)) = [5; 4; 3].
 Proof. vm_compute. reflexivity. Qed.
-Example ex_find : depth (find_subject_c 999 (map N.of_nat (seq 0 1000))) = 10%nat /\
+Example ex_find : depth (find_subject_c 999 (map N.of_nat (seq 0 1000))) = 9%nat /\
                   res (find_subject_c 999 (map N.of_nat (seq 0 1000))) = Some 999%nat.
 Proof. vm_compute. split; reflexivity. Qed.
 Example ex_constituents :
